@@ -281,8 +281,11 @@ class Flat(Harness):
             for n in ns:
                 for op in ("idx_last", "slice_mid", "rev", "mask", "ilist", "eq_char", "eq_array", "assign_idx", "assign_mask", "concat", "copy",
                            "assign_idx_str", "assign_mask_str", "assign_slice_str",      # *_str: the assigned value is a Python str (documented)
-                           "where", "append", "insert", "argsort", "lexsort", "zeros_like"):      # NumPy array functions forwarded by __array_function__
-                    if n == 0 and op in ("idx_last", "ilist", "assign_idx", "assign_idx_str", "insert"):
+                           "where", "append", "insert", "argsort", "lexsort", "zeros_like",       # NumPy array functions forwarded by __array_function__
+                           "string_edit_string"):       # history: converted to text, edited in place, converted again
+                    if n == 0 and op in ("idx_last", "ilist", "assign_idx", "assign_idx_str", "insert", "string_edit_string"):
+                        continue
+                    if op == "string_edit_string" and kind != "ascii":      # characters are compared as byte values
                         continue
                     out.append(dict(kind=kind, n=n, op=op))
         # operands in different encodings: the alphabet-encoded array combined with an ASCII array holding letters of the alphabet
@@ -383,6 +386,13 @@ class Flat(Harness):
         elif op == "assign_mask":
             r = e.copy()
             r[r == ch] = ch2
+        elif op == "string_edit_string":
+            r = e.copy()
+            before = r.to_string()
+            r[x["i0"]] = ch2
+            after = r.to_string()
+            codes = lambda t: list(t.sym) if hasattr(t, "sym") else [ord(c_) for c_ in t]
+            return dict(kind="flat", v=codes(before) + codes(after), src=ctx.lst(src.raw()))
         elif op == "assign_idx_str":
             r = e.copy()
             r[x["i0"]] = "G"
@@ -443,6 +453,8 @@ class Flat(Harness):
             return [("eq", t, g(f"o{i}")) for i, t in enumerate(s)]
         if op == "assign_idx":
             return [("assign_at", i, t) for i, t in enumerate(s)]
+        if op == "string_edit_string":      # the text before the edit, then the text after it (characters as byte values)
+            return list(s) + [("assign_at", i, t, ch2) for i, t in enumerate(s)]
         if op == "assign_mask":
             return [I(t, ch, ch2) for t in s]
         if op == "assign_idx_str":
@@ -576,7 +588,7 @@ class Flat(Harness):
             if isinstance(e, tuple) and e[0] == "alleq":
                 return e[1] == e[2]
             if isinstance(e, tuple) and e[0] == "assign_at":
-                return cx["ch2"] if cx["i0"] in (e[1], e[1] - n) else e[2]
+                return (e[3] if len(e) > 3 else cx["ch2"]) if cx["i0"] in (e[1], e[1] - n) else e[2]
             return e
         exp = ev(exp)
         got = cout["v"]
